@@ -23,11 +23,13 @@ _H = None
 _W = None
 _PRISTINE = None
 _KEEP_GRAPH = False
+_STOP = None
 
 
-def _init(harness_cls, hargs, keep_graph=False):
-    global _H, _W, _PRISTINE, _KEEP_GRAPH
+def _init(harness_cls, hargs, keep_graph=False, stop=None):
+    global _H, _W, _PRISTINE, _KEEP_GRAPH, _STOP
     _KEEP_GRAPH = keep_graph
+    _STOP = stop
     from vf import boot
 
     boot.install()
@@ -41,6 +43,8 @@ def _expand(chunk):
     out = []
     ntrans = 0
     for snap_b, hist in chunk:
+        if _STOP is not None and _STOP.value:
+            break   # the level was abandoned (time budget): drain quickly
         snap = pickle.loads(snap_b)
         _W.restore(snap)
         labels = _H.enabled(_W)
@@ -97,7 +101,8 @@ def bfs(harness_cls, hargs=(), *, depth, procs=16, max_states=None, time_budget=
     seen = {}
     hist_of = {}
     graph = [] if keep_graph else None
-    with ctx.Pool(procs, initializer=_init, initargs=(harness_cls, hargs, keep_graph)) as pool:
+    stop = ctx.Value('i', 0)
+    with ctx.Pool(procs, initializer=_init, initargs=(harness_cls, hargs, keep_graph, stop)) as pool:
         init = pool.map(_initial, [0])[0]
         frontier = []
         for c, snap, hist, viol, _, _c0 in init:
@@ -121,6 +126,7 @@ def bfs(harness_cls, hargs=(), *, depth, procs=16, max_states=None, time_budget=
                 if time_budget is not None and time.time() - t0 > time_budget * 1.5:
                     # a level that runs far past the budget is abandoned: what it found so far is kept, the level does not count
                     aborted = True
+                    stop.value = 1   # workers skip the rest of their chunks; the iterator drains without killing processes
                 res.transitions += ntrans
                 for k, v in cov.items():
                     res.coverage[k] = max(res.coverage.get(k, 0), v)
@@ -135,12 +141,9 @@ def bfs(harness_cls, hargs=(), *, depth, procs=16, max_states=None, time_budget=
                             res.samples.append(hist)
                     if graph is not None:
                         graph.append((seen[c0], hist[-1], seen[c]))
-                if aborted:
-                    break
             if aborted:
                 res.capped = True
                 res.partial_level = d + 1
-                pool.terminate()
                 break
             d += 1
             # deterministic order regardless of worker scheduling
